@@ -306,7 +306,7 @@ void dem_read_instruction(DetectorErrorModel &model, char lead_char, SOURCE read
             }
             DemInstruction{model.arg_buf.tail, model.target_buf.tail, tail_tag, type}.validate();
         }
-    } catch (const std::invalid_argument &) {
+    } catch (...) {
         model.tag_buf.discard_tail();
         model.target_buf.discard_tail();
         model.arg_buf.discard_tail();
